@@ -28,6 +28,7 @@ package remote
 //@   props C16
 //@   requires r != nil && r.remote != nil && engInv(r.remote.engine) && !isnil(r.deserializer) && !isnil(stream)
 //@   nopanic[C16.receive.nopanic]
+//@   modifies log, loglen
 //@   ghost at call SendLocal#1 before: assert[C16.receive.type-index-valid] 0 <= msg.TypeNameIndex && msg.TypeNameIndex < len(envelope.TypeNames)
 //@   ghost at call SendLocal#1 before: assert[C16.receive.target-index-valid] 0 <= msg.TargetIndex && msg.TargetIndex < len(envelope.Targets)
 //@   ghost at call SendLocal#1 before: assert[C16.receive.sender-index-valid] len(envelope.Senders) > 0 ==> 0 <= msg.SenderIndex && msg.SenderIndex < len(envelope.Senders)
